@@ -300,7 +300,6 @@ func VC01() {
 	checkStmt(st, mode, "c01.decode")
 }
 
-
 // no-operand instructions: mnemonic, the decoder's name for it, and the
 // operand size it denotes (0: the mode's own size or size-less; 16/32: that
 // size whatever the mode, so a 66h prefix is needed in the other mode)
